@@ -104,6 +104,21 @@ Section Alarm.
       rewrite add_all_alarms. destruct (add_all _ _ _ _ _ _ _ _ _ _) as [[q' seen']|]; [apply IH|discriminate].
   Qed.
 
+  (** the sink visits recorded so far are never dropped *)
+  Lemma loop_hits_extend cfg' : forall fuel st stu,
+    loop g P cfg' ord src fuel st = Done stu -> hits_suffix (st_hits st) (st_hits stu).
+  Proof.
+    induction fuel as [|fuel IHf]; intros st stu H; simpl in H; [discriminate|].
+    destruct (st_queue st) as [|c1 q1]; [injection H as <-; exists []; reflexivity|].
+    destruct (stop_of g P cfg' c1) as [[r|]|c]; [| |discriminate].
+    - destruct r; try (apply IHf in H; simpl in H; exact H).
+      destruct (_ && _); [discriminate|].
+      apply IHf in H. simpl in H. destruct H as [p ->]. exists (p ++ [c1]). rewrite <- app_assoc. reflexivity.
+    - destruct (expand g cfg' ord src (st_step st) c1); [|discriminate].
+      destruct (add_all _ _ _ _ _ _ _ _ _ _) as [[q' seen']|]; [|discriminate].
+      apply IHf in H. exact H.
+  Qed.
+
   (** lock-step lemma: the limited run is the unlimited one, cut at the visit where the counter reaches k *)
   Lemma loop_limit k : (0 < k)%N -> forall fuel st stu,
     loop g P (with_alarms cfg 0) ord src fuel st = Done stu ->
@@ -126,27 +141,19 @@ Section Alarm.
           set (st1 := mkState q (st_seen st) (cur :: st_hits st) (N.succ (st_alarms st)) (cur :: st_visited st) (N.succ (st_step st))) in *.
           destruct (N.ltb (N.succ (st_alarms st)) k) eqn:Elt; simpl.
           -- apply N.ltb_lt in Elt.
-             assert (N.ltb 0 k && negb true = false) as -> by (rewrite andb_false_r; reflexivity).
+             rewrite andb_false_r.
              destruct (IH st1 stu H) as (stk & Hl & H1 & H2 & H3 & H4); [exact Elt|].
              exists stk. split; [exact Hl|]. simpl in *.
              split; [destruct H1 as [p ->]; exists (p ++ [cur]); rewrite <- app_assoc; reflexivity|].
              split; [exact H2|]. split; [lia|]. intros _. destruct H1 as [p ->]. rewrite app_length. simpl. lia.
-          -- assert (N.ltb 0 k && negb false = true) as -> by (apply N.ltb_lt in Hk; rewrite Hk; reflexivity).
-             exists st1. split; [right; reflexivity|]. simpl.
+          -- rewrite andb_true_r. rewrite (proj2 (N.ltb_lt 0 k) Hk).
+             exists st1. split; [right; reflexivity|].
+             assert (N.of_nat (length (st_hits st1)) = N.succ (N.of_nat (length (st_hits st)))) as Hlen
+               by (unfold st1; cbn [st_hits length]; apply Nat2N.inj_succ).
              split; [exists [cur]; reflexivity|].
-             split.
-             { (* the unlimited run continues from st1: its hits extend those of st1 *)
-               clear -H. revert H. generalize st1. clear st1. revert stu.
-               induction fuel as [|fuel IHf]; intros stu st1 H; simpl in H; [discriminate|].
-               destruct (st_queue st1) as [|c1 q1]; [injection H as <-; exists []; reflexivity|].
-               rewrite stop_of_alarms in H.
-               destruct (stop_of g P cfg c1) as [[r|]|c]; [| |discriminate].
-               - destruct r; try (apply IHf in H; simpl in H; exact H).
-                 simpl in H. apply IHf in H. simpl in H. destruct H as [p ->]. exists (p ++ [c1]). rewrite <- app_assoc. reflexivity.
-               - rewrite expand_alarms in H. destruct (expand g cfg ord src (st_step st1) c1); [|discriminate].
-                 rewrite add_all_alarms in H. destruct (add_all _ _ _ _ _ _ _ _ _ _) as [[q' seen']|]; [|discriminate].
-                 apply IHf in H. exact H. }
-             split; [apply N.ltb_ge in Elt; lia|]. intros _. lia.
+             split; [apply (loop_hits_extend _ _ _ _ H)|].
+             split; [apply N.ltb_ge in Elt; rewrite Hlen; lia|].
+             intros _. unfold st1; cbn [st_hits length]. lia.
         * destruct (IH _ _ H Hal) as (stk & Hl & H1 & H2 & H3 & H4). exists stk. simpl in *. auto.
         * destruct (IH _ _ H Hal) as (stk & Hl & H1 & H2 & H3 & H4). exists stk. simpl in *. auto.
       + rewrite expand_alarms in *. destruct (expand g cfg ord src (st_step st) cur) as [cds|]; [|discriminate].
